@@ -37,6 +37,12 @@ INSTR_SAMPLE = 70
 
 
 def gen_base(rng, tier, index):
+    if index == 13 or (tier == "thorough" and index % 40 == 13):
+        # functors that take seconds per item (longer than any plausible internal polling interval): a bounded work
+        # queue stays full for a long time while the feeder waits
+        return {"pool": "factory" if index % 2 else "functor", "workers": 1, "wq": 1, "rq": None, "no_sweep": True, "limit_factor": 3,
+                "calls": [{"ordered": index % 4 < 2, "n": 3, "chunk": 1, "form": "list",
+                           "durations": {"mode": "all", "t": 6.2 if tier == "quick" else rng.choice([6.2, 11.0])}}]}
     workers = rng.choice([1, 2, 2, 3, 4])
     chunk = rng.choice([1, 1, 2, 3, 5, 7])
     kind = index % 8
@@ -60,6 +66,8 @@ def gen_base(rng, tier, index):
     if call["form"] == "slow":
         call["slow"] = {"before": {str(rng.randrange(max(1, n))): rng.choice([0.01, 0.05])} if n else {},
                         "stop": rng.choice([0, 0.02, 0.1])}
+    if index % 4 == 1 and n and call["form"] in ("list", "tuple", "gen", "iter", "slow", "deque"):
+        call["nones"] = sorted({rng.randrange(n) for _ in range(rng.randint(1, 3))})   # None as a data item
     return {"pool": "factory" if index % 4 == 3 else "functor", "workers": workers,
             "wq": rng.choice([None, 1, 2, 0.5, 1.0, 1.0, 2.0]), "rq": rng.choice([None, None, 1, 2, 3]),
             "calls": [call], "ready_first": rng.random() < 0.2}
